@@ -110,13 +110,15 @@ def rounds_values(draw, spec, odd=False):
 
 
 @st.composite
-def settings(draw, name, explicit_salt=True):
+def settings(draw, name, explicit_salt=True, allow_bare=False):
     """dict of using() keywords: every digest-relevant setting explicit and cheap"""
     f = table.T[name]
     s = {}
     if f.rounds:
         s["rounds"] = draw(rounds_values(f.rounds, odd=f.base == "bsdi_crypt"))
     for k, vals in f.extra.items():
+        if k == "bare_salt" and not allow_bare:
+            continue  # not expressible through using(); exercised through reference-made strings in C02
         v = draw(st.sampled_from(vals))
         if v is not None:
             s[k] = v
@@ -210,7 +212,8 @@ def near_misses(draw, p, count=4):
             q = p[:i] + bytes([p[i] ^ 0x80 or 0x80]) + p[i + 1 :]
         elif k == "blank":
             i = draw(st.integers(0, n))
-            q = p[:i] + (" " if is_text else b" ") + p[i:]
+            bl = draw(st.sampled_from([" ", "\t", "  "]))
+            q = p[:i] + (bl if is_text else bl.encode()) + p[i:]
         elif k == "swap" and n >= 2:
             i = draw(st.integers(0, n - 2))
             q = p[:i] + p[i + 1 : i + 2] + p[i : i + 1] + p[i + 2 :]
